@@ -35,6 +35,7 @@ declarations:
 - decl: const std::string &name(const std::string &who)
   doxygen:
     brief: name things
+    description: "two lines of text\\nwithout a newline at the end"
 - decl: void over(int a)
 - decl: void over(double a)
 - decl: double dflt(double a = 1.5, bool b = true)
@@ -72,6 +73,12 @@ declarations:
   declarations:
   - decl: Derived()
   - decl: int extra(int a)
+- decl: class Guarded
+  cpp_if: ifdef HAVE_GUARDED
+  declarations:
+  - decl: Guarded()
+  - decl: int level(int a)
+    cpp_if: ifdef HAVE_LEVEL
 - decl: namespace inner
   declarations:
   - decl: int twice(int value)
